@@ -96,6 +96,8 @@ class Replayer:
                 b = val(v[2][0])
                 if isinstance(b, tuple) and b[0] == "rawbytes" and b[1].startswith("encode[ascii](str(") and b[1].endswith("))"):
                     return ("same", b[1][len("encode[ascii](str("):-2], "int")
+                if isinstance(b, tuple) and b[0] == "rawbytes" and b[1].startswith("encode["):
+                    raise AnalysisError(f"replay: no axiom relates int() to the text form {b[1]} (only AX-decimal int(ascii(str(i))) == i is trusted)")
                 raise Mismatch(f"{op!r}: int() applied to {b!r}")
             if k == "decode":
                 b = val(v[2])
